@@ -110,6 +110,21 @@ func (ibkr) Generate(r *rand.Rand, o Opts) *Statement {
 			comm := Cents(-int64(r.Intn(2000)))
 			trades = append(trades, csvLine(',', "Trades", "Data", "Order", "Stocks", cur, sym, fmt.Sprintf(`"%s, %s"`, day, hms(r)),
 				ibNum(qty, true), price.Short(), price.Short(), ibNum(proceeds, true), comm.Short(), ibNum(proceeds.Add(comm).Neg(), true), "0", "0", "0", "O"))
+			if r.Intn(3) == 0 {
+				// the activity statement can list, below an order, its executions, closed
+				// lots and a per-symbol subtotal: detail rows that repeat the order, not bookings
+				ts := fmt.Sprintf(`"%s, %s"`, day, hms(r))
+				trades = append(trades, csvLine(',', "Trades", "Data", "Trade", "Stocks", cur, sym, ts,
+					ibNum(qty, true), price.Short(), price.Short(), ibNum(proceeds, true), comm.Short(), ibNum(proceeds.Add(comm).Neg(), true), "0", "0", "0", "O"))
+				if r.Intn(2) == 0 {
+					trades = append(trades, csvLine(',', "Trades", "Data", "ClosedLot", "Stocks", cur, sym, fmt.Sprintf(`"%s"`, day),
+						ibNum(qty, true), price.Short(), "", "", "", ibNum(proceeds.Neg(), true), "0", "0", "0", "ST"))
+				}
+				trades = append(trades, csvLine(',', "Trades", "SubTotal", "", "Stocks", cur, sym, "",
+					ibNum(qty, true), "", "", ibNum(proceeds, true), comm.Short(), ibNum(proceeds.Add(comm).Neg(), true), "0", "", "0", ""))
+				st.OtherRows += 2
+				st.feature("trade-detail-rows")
+			}
 			add(pos, sym, qty)
 			add(cash, cur, proceeds)
 			add(cash, cur, comm)
